@@ -25,11 +25,34 @@ class ImplResult:
         self.top2 = None
 
 
+MEM_LIMIT = 12 << 30      # address space of this process while floogen runs (it normally needs well under 1 GiB)
+
+
+@contextlib.contextmanager
+def memory_limit():
+    """a generator that no longer terminates on a small description (tables padded without bound …) ends in a
+    MemoryError here, instead of taking the whole check down with it"""
+    import resource
+    soft, hard = resource.getrlimit(resource.RLIMIT_AS)
+    lim = MEM_LIMIT if hard == resource.RLIM_INFINITY else min(MEM_LIMIT, hard)
+    try:
+        resource.setrlimit(resource.RLIMIT_AS, (lim, hard))
+    except (ValueError, OSError):
+        pass
+    try:
+        yield
+    finally:
+        try:
+            resource.setrlimit(resource.RLIMIT_AS, (soft, hard))
+        except (ValueError, OSError):
+            pass
+
+
 def run_floogen(cfg, keep_network=False):
     """cfg: plain dict as it would come out of the YAML loader."""
     cfg = copy.deepcopy(cfg)
     try:
-        with contextlib.redirect_stdout(io.StringIO()):
+        with contextlib.redirect_stdout(io.StringIO()), memory_limit():
             network = Network.model_validate(cfg)
             network.create_network()
             network.compile_network()
